@@ -53,6 +53,71 @@ def guard_slots(unit, rec):
 SAT = 2  # counts saturate at 2 (= "two or more")
 
 
+def move_ctor_effect(c, mfield, flag, own):
+    """Symbolic execution of a guard's move constructor over (this.mutex, this.flag, other.mutex, other.flag):
+    constructor initialisers, delegation to the (unowned) default constructor, whole-object swap, std::swap of two
+    fields, std::exchange, plain assignments.  -> set of (this.mutex, this.flag, other.flag) over all exits."""
+    ps = c.params()
+    if len(ps) != 1:
+        return set()
+    oroot = "p:%s#%d" % (ps[0]["n"], ps[0]["d"])
+    keys = {("this", mfield): 0, ("this", flag): 1, (oroot, mfield): 2, (oroot, flag): 3}
+    init = ("?", "?", "other.mutex@entry", "other.flag@entry")
+
+    def ev(x, st):
+        """-> (value, state)"""
+        x = std_unwrap(x)
+        while x.kind in ("InitListExpr", "MaterializeTemporaryExpr", "ExprWithCleanups", "CXXBindTemporaryExpr") and len(x.children) == 1:
+            x = std_unwrap(x.children[0])
+        if x.kind == "CXXBoolLiteralExpr":
+            return bool(x.get("bv")), st
+        if x.kind == "CXXNullPtrLiteralExpr" or x.get("nullc"):
+            return "null", st
+        if x.kind == "CallExpr" and x.callee and x.callee["uq"] == "std::exchange" and len(x.args) == 2:
+            k = keys.get(path(x.args[0]))
+            v, st = ev(x.args[1], st)
+            if k is None:
+                return "?", st
+            old = st[k]
+            st = st[:k] + (v,) + st[k + 1:]
+            return old, st
+        k = keys.get(path(x))
+        if k is not None:
+            return st[k], st
+        c_ = x.cv() if x.kind not in ("DeclRefExpr", "MemberExpr") else None
+        if c_ is not None and x.kind == "IntegerLiteral":
+            return ("null" if c_ == 0 else "?"), st
+        return "?", st
+
+    def transfer(n, st):
+        if n.kind == "CtorInit":
+            if n.get("field") in (mfield, flag) and n.child("init") is not None:
+                v, st = ev(n.child("init"), st)
+                k = keys[("this", n.get("field"))]
+                st = st[:k] + (v,) + st[k + 1:]
+            elif not n.get("field") and c.get("delegating"):
+                st = ("null", False) + st[2:]        # the default constructor's state (checked as G.ctor default)
+            return [st]
+        if n.kind == "CallExpr" and n.callee and len(n.args) == 2:
+            pa, pb = path(n.args[0]), path(n.args[1])
+            if own.get(n.callee["did"]) == "swap" and {pa, pb} == {("this",), (oroot,)}:
+                return [(st[2], st[3], st[0], st[1])]
+            if n.callee["n"] == "swap" and pa in keys and pb in keys:
+                a, b = keys[pa], keys[pb]
+                l = list(st); l[a], l[b] = l[b], l[a]
+                return [tuple(l)]
+        if n.kind == "BinaryOperator" and n.op == "=":
+            k = keys.get(path(n.children[0]))
+            if k is not None:
+                v, st = ev(n.children[1], st)
+                st = st[:k] + (v,) + st[k + 1:]
+                return [st]
+        return [st]
+    # std::exchange inside an initialiser is evaluated by the CtorInit itself: skip the stand-alone call elements
+    _, ex = flow.run(c, [init], transfer, None)
+    return {(s[0], s[1], s[3]) for s in ex}
+
+
 def method_effect(fn, mfield, flag, own, init_flags=(True, False, None)):
     """Abstractly execute a member of a guard class.
 
@@ -210,14 +275,17 @@ def check_guards(ctx, unit, table):
                 else:
                     kind, want = "unknown", None
                 if kind == "move":
-                    # must make no mutex call itself; ownership moves by swap from an unowned state
+                    # must make no mutex call itself; this guard takes over (mutex, flag) of the source as they were on
+                    # entry and the source ends unowned -- however that is spelled (delegate + swap, std::exchange in the
+                    # initialisers, plain assignments): decided by a small symbolic execution of the two field pairs
                     calls = {cc for (_, cc) in outs}
-                    uses_swap = any(n.kind == "CallExpr" and n.callee and own.get(n.callee["did"]) == "swap"
-                                    for n in c.events())
-                    ok = calls == {()} and uses_swap and bool(c.get("delegating"))
-                    detail = "move constructor must delegate to the unowned default state, swap, and call " \
-                             "no mutex method; found calls=%s swap=%s delegating=%s" % (
-                                 sorted(calls), uses_swap, bool(c.get("delegating")))
+                    fin = move_ctor_effect(c, mfield, flag, own)
+                    want_fin = ("other.mutex@entry", "other.flag@entry", False)
+                    bad_fin = [x for x in fin if x != want_fin]
+                    ok = calls == {()} and bool(fin) and not bad_fin
+                    detail = "move constructor must call no mutex method, take over the source's mutex and flag and leave the " \
+                             "source unowned; found calls=%s, final (this.mutex, this.flag, other.flag) %s" % (
+                                 sorted(calls), sorted(fin, key=str))
                 elif want is None:
                     ok, detail = False, "constructor kind not recognised: (%s)" % ", ".join(ptys)
                 else:
